@@ -286,11 +286,20 @@ func runCore(t *testing.T, cfg coreCfg) {
 		seeds *= 3
 	}
 	base := Seed()
+	// thorough tier: bin/check runs several processes, each with its own slice of the seed range
+	shard, nShards := 0, 1
+	fmt.Sscanf(os.Getenv("VERIF_SHARD"), "%d/%d", &shard, &nShards)
+	if nShards < 1 {
+		shard, nShards = 0, 1
+	}
 	nOps, nHist, disagreements := 0, 0, 0
 	reportedSig := map[string]bool{}
 	focus := ""
 	// corpus of minimised past failures runs first
 	corpus, _ := filepath.Glob(filepath.Join(corpusDir(), "*.json"))
+	if shard != 0 {
+		corpus = nil // the corpus, the metamorphic runs and the extra runners belong to shard 0
+	}
 	for _, cf := range corpus {
 		b, err := os.ReadFile(cf)
 		if err != nil {
@@ -318,6 +327,9 @@ func runCore(t *testing.T, cfg coreCfg) {
 		}
 	}
 	for s := 0; s < seeds; s++ {
+		if s%nShards != shard {
+			continue
+		}
 		seed := base*100003 + int64(s)
 		prof := cfg.profile
 		if focus != "" {
@@ -418,10 +430,10 @@ func runCore(t *testing.T, cfg coreCfg) {
 			break
 		}
 	}
-	if cfg.metamorphic {
+	if cfg.metamorphic && shard == 0 {
 		runMetamorphic(t, st, cfg, base)
 	}
-	if cfg.extra != nil && len(st.Violations) == 0 {
+	if cfg.extra != nil && len(st.Violations) == 0 && shard == 0 {
 		cfg.extra(t, st)
 	}
 	st.Set("evaluations", nOps)
@@ -617,10 +629,10 @@ var (
 )
 
 func TestC01(t *testing.T) {
-	runCore(t, coreCfg{prop: "C01", profile: profC01, quickSeeds: 40, thoroughSeeds: 700, nops: 100, drain: true})
+	runCore(t, coreCfg{prop: "C01", profile: profC01, quickSeeds: 40, thoroughSeeds: 1600, nops: 100, drain: true})
 }
 func TestC02(t *testing.T) {
-	runCore(t, coreCfg{prop: "C02", profile: profC02, quickSeeds: 40, thoroughSeeds: 700, nops: 100, drain: true})
+	runCore(t, coreCfg{prop: "C02", profile: profC02, quickSeeds: 40, thoroughSeeds: 1600, nops: 100, drain: true})
 }
 
 // streamInitialAck: acknowledgements carried by the first request of a StreamingPull are final too
@@ -675,7 +687,7 @@ func streamInitialAck(t *testing.T, st *Stats) {
 }
 
 func TestC03(t *testing.T) {
-	runCore(t, coreCfg{prop: "C03", extra: streamInitialAck, profile: profC03, quickSeeds: 40, thoroughSeeds: 700, nops: 100})
+	runCore(t, coreCfg{prop: "C03", extra: streamInitialAck, profile: profC03, quickSeeds: 40, thoroughSeeds: 1600, nops: 100})
 }
 
 // streamLease: the lease on the streaming path — a message sent on a stream is not handed out again
@@ -700,22 +712,22 @@ func streamLease(t *testing.T, st *Stats) {
 }
 
 func TestC04(t *testing.T) {
-	runCore(t, coreCfg{prop: "C04", extra: streamLease, profile: profC04, quickSeeds: 40, thoroughSeeds: 700, nops: 100})
+	runCore(t, coreCfg{prop: "C04", extra: streamLease, profile: profC04, quickSeeds: 40, thoroughSeeds: 1600, nops: 100})
 }
 func TestC05(t *testing.T) {
-	runCore(t, coreCfg{prop: "C05", profile: profC05, quickSeeds: 40, thoroughSeeds: 700, nops: 100, drain: true})
+	runCore(t, coreCfg{prop: "C05", profile: profC05, quickSeeds: 40, thoroughSeeds: 1600, nops: 100, drain: true})
 }
 func TestC06(t *testing.T) {
-	runCore(t, coreCfg{prop: "C06", profile: profC06, quickSeeds: 40, thoroughSeeds: 700, nops: 100, drain: true})
+	runCore(t, coreCfg{prop: "C06", profile: profC06, quickSeeds: 40, thoroughSeeds: 1600, nops: 100, drain: true})
 }
 func TestC13(t *testing.T) {
-	runCore(t, coreCfg{prop: "C13", profile: profC13, quickSeeds: 40, thoroughSeeds: 700, nops: 100})
+	runCore(t, coreCfg{prop: "C13", profile: profC13, quickSeeds: 40, thoroughSeeds: 1600, nops: 100})
 }
 func TestC14(t *testing.T) {
-	runCore(t, coreCfg{prop: "C14", profile: profC14, quickSeeds: 40, thoroughSeeds: 700, nops: 100})
+	runCore(t, coreCfg{prop: "C14", profile: profC14, quickSeeds: 40, thoroughSeeds: 1600, nops: 100})
 }
 func TestC15(t *testing.T) {
-	runCore(t, coreCfg{prop: "C15", profile: profC15, quickSeeds: 25, thoroughSeeds: 400, nops: 100, metamorphic: true})
+	runCore(t, coreCfg{prop: "C15", profile: profC15, quickSeeds: 25, thoroughSeeds: 1000, nops: 100, metamorphic: true})
 }
 
 // TestShrink: developer helper — run one seed of ProfileAll, shrink the first finding, print the replay.
